@@ -13,7 +13,6 @@ pub uninterp spec fn cwd_path() -> Seq<u8>;           // "cwd"
 /// the descriptor was opened through the procfs handle at (base, subpath) (A6 for base=thread-self, fd/<n>)
 pub uninterp spec fn opened_via_procfs(fd: int, base: ProcfsBase, subpath: Seq<u8>, follow: bool) -> bool;
 pub uninterp spec fn requested_flags_of(fd: int) -> i32;
-pub open spec fn creation_flags(bits: i32) -> bool { bits & (libc::O_CREAT | libc::O_EXCL) != 0 || bits & libc::O_TMPFILE == libc::O_TMPFILE }
 impl AsRefPath for String {
     uninterp spec fn pview(&self) -> Seq<u8>;
     #[verifier::external_body]
@@ -26,5 +25,3 @@ pub fn fd_subpath_string(fd: i32) -> (r: String) ensures r.pview() == fd_path(fd
 pub fn cwd_subpath_string() -> (r: String) ensures r.pview() == cwd_path() { unimplemented!() }
 pub uninterp spec fn stat_is_symlink(fd: int) -> bool;
 pub uninterp spec fn readlink_via_procfs(body: Seq<u8>, base: ProcfsBase, subpath: Seq<u8>) -> bool;
-/// the link body was read (readlinkat(fd, "")) from a descriptor that passed the procfs checks
-pub open spec fn exists_procfs_link(body: Seq<u8>) -> bool { exists|l: int| (#[trigger] link_body_of(l, body)) && is_procfs(l) }
